@@ -72,7 +72,9 @@ CLAIMED["C01"] = {
              "iff there is a token and (help on) it is not a help request; Ok paths end with editor reset, one prompt, flush; history is "
              "pushed from Editor::text before the rewrite; from_tokens returns (first token, rest) and None iff no first token. "
              "Not decided as a value: equality of the tokens with the line after arbitrary editing." + IMP +
-             "C04 (key decoding), C05 (editor operations), C06.sync (the visible line is the editor's), C07 (tokenisation), C08.classify."),
+             "C04 (key decoding), C05 (editor operations), C06.sync (the visible line is the editor's), C07 (tokenisation), C08.classify, "
+             "C10.recall-entry/whole-entry (a recall replaces the line by one whole stored entry) and C11.line-content (a completion adds only "
+             "the completed bytes and at most one blank)."),
     "design_ref": "DESIGN.md §4 C01",
     "note": TB,
 }
@@ -139,8 +141,9 @@ CLAIMED["C02"] = {
              "(from_utf8_unchecked[_mut] over a sub-slice, str::get_unchecked) has both ends at a scalar boundary by construction (0, a str "
              "length, the position of an ASCII byte found by an abstractly evaluated search, a result of char_byte_index/common_prefix_len, or a "
              "field holding such a position inductively), and stores into text buffers are ASCII or copies of str bytes at such offsets. "
-             "Not decided: that the counting helpers return boundaries (argued from U2 and C17.D); History.used/cursor rest on the "
-             "NUL-separation invariant assumed in C03."),
+             "That the counting helpers return boundaries follows from U2 and C17.D; History.used/cursor rest on the "
+             "NUL-separation invariant assumed in C03." + IMP + "C17.counting (char_byte_index / common_prefix_len stop on scalar boundaries) "
+             "and C14.reset/atomic."),
     "design_ref": "DESIGN.md §4 C02, §2 E4, App. B.1",
     "note": TB + " specs/utf8.py transcribes Table 3-7.",
 }
@@ -221,7 +224,9 @@ CLAIMED["C03"] = {
              "are proved by a slack lemma on its extracted transducer (C07). Encapsulation witnesses (compile_fail doc tests with compiling "
              "twins, generated per field for the types handed to application code) show that user code cannot reach the state the unchecked "
              "operations rely on. The Utf8Accum and encode_utf8 obligations are decided in the value-set domain over the "
-             "extracted reachable decoder states / in the callers' context. Not decided: UTF-8 validity preconditions (C02), the content invariants."),
+             "extracted reachable decoder states / in the callers' context. Not decided: the content invariants." + IMP +
+             "C02.boundary (both ends of every unchecked text construction are positions between two scalars) and C17.counting (the helpers "
+             "that compute such positions stop on scalar boundaries): the UTF-8 preconditions of from_utf8_unchecked / str::get_unchecked."),
     "design_ref": "DESIGN.md §4 C03, §2 E3",
     "note": TB + " Assumes Buffer::len is stable for a given buffer (true for the two impls in buffer.rs) and that all sizes are <= isize::MAX.",
 }
@@ -243,7 +248,8 @@ CLAIMED["C17"] = {
              "emitted as itself; (B) with the scalar's payload bits symbolic, encode_utf8 writes exactly the UTF-8 definition's bytes and "
              "char_pop_front reassembles exactly those bits and leaves exactly the following text, for each of the four lengths (hence the "
              "round trip for all 1,112,064 scalars without enumerating them); (C) bytes >= 0x80 are ordinary in every tokenizer state; (D) the "
-             "counting helpers feed each byte once, in order, to a fresh accumulator and step their counter iff it reports a scalar. "
+             "counting helpers feed each byte once, in order, to a fresh accumulator and step their counter iff it reports a scalar; the value "
+             "common_prefix_len returns takes the byte count exactly on bytes that complete a scalar and is unchanged on every other byte. "
              "The composition of (A) and (D) into `count = number of scalars` is an argument in DESIGN.md, its premises are what is checked." + IMP +
              "C05.units/move (cursor positions are whole characters) and C12.from_command (no scalar other than `h` is taken for the help option)."),
     "design_ref": "DESIGN.md §4 C17",
